@@ -36,6 +36,17 @@ theorem c19_refuses_iff (s : State) :
   | none => simp [step, hc]
   | some ph => cases ph <;> simp [step, hc, alive]
 
+/-- **C19 (a refused `finish_connection` detaches nothing that is in use).**  Called while the
+attached connection is open and busy — the start or a finish in progress, a session up — the call is
+refused (the state guard's RuntimeError) and the connection stays attached: the attempt or session
+it found goes on under the client's eyes (the defect repaired by 3b69983 detached it).  Only a
+closed connection is detached. -/
+theorem c19_refused_finish_keeps (s : State) (ph : Ph) (h : s.conn = some ph) :
+    (alive ph = true → ph ≠ .opened →
+      (step s .callFinish).conn = some ph ∧ (step s .callFinish).last = .rawError) ∧
+    (alive ph = false → (step s .callFinish).conn = none ∧ (step s .callFinish).last = .rawError) := by
+  cases ph <;> simp [step, h, alive]
+
 /-- … in particular after every history: after any failed attempt, after the device or the user
 ended the session, after a close at any stage — once the attempt that was in progress (if any) has
 unwound, the client accepts a new attempt -/
